@@ -1138,6 +1138,11 @@ func runC13(r *Rand, tier string, o *Out) {
 	}
 	emitN += 3
 	o.Count("scenario:a-subscriber-that-cannot-be-written-to")
+	// a neighbour on the same connection that never reads
+	if out := o.Do("P", "sg.neighbour", true); out != "ok" {
+		o.Fail("subscriptions: "+strings.SplitN(strings.TrimPrefix(out, "fail:"), " ", 2)[0]+": a subscriber whose neighbour on the connection does not read", "sg.neighbour => "+out)
+	}
+	o.Count("scenario:a-neighbour-that-never-reads")
 	// an unregistration acknowledged while an emission is between its copy of the users and its writes
 	if out := o.Do("P", "sg.emitrace", true); sgLastRace == "late=1" {
 		o.Fail("an event is sent after the acknowledgement of the removal: the emission had copied the users before", "sg.emitrace => late=1")
